@@ -6,11 +6,12 @@ import random
 from lib.report import REPO
 from structural import sig
 from bounded import progs, tracer_checks as T
-from .common import ASSUME
+from .common import ASSUME, deductive_part
 LEVEL = 'exploration'
 
 
 def run(rep, tier, seed):
+    rc0, _res = deductive_part(rep, 'C03', tier, seed)          # per-operation adjoint formula + frame of the element-wise pullbacks (proved)
     rng = random.Random(1000 + seed)
     # ---- structural: SIG
     confirmed_by_corpus = {}
@@ -65,7 +66,7 @@ def run(rep, tier, seed):
     rep.extra['status_counts'] = counts
     rep.extra['explanation'] = 'the universally quantified statement over all programs is out of reach of contract-based verification (DESIGN 13); proved part = SIG obligations; the rest is bounded'
     rep.assume(ASSUME['A6'], 'forward mode (used as the oracle for F\'(x)v through the order-shift identity) is correct: C01/C02/C07 contracts', 'C12 (degree independence) for the order-shift identity')
-    return 0
+    return rc0
 
 
 def uses_bad(p, bad_ops):
